@@ -146,6 +146,9 @@ func checkC01(w *World, c *Check, tier string) {
 	c.stat("tagged_structs", len(structs))
 	checkNothingInvented(w, c, t, "C01.R-clobber")
 	checkLoaderFilter(w, c, "C01.filter")
+	checkWholeListWritten(w, c, t, "C01.W-whole")
+	c.floor("C01.W-asis", 8)
+	checkQuotedAsIs(w, c, "C01.W-asis")
 	c.floor("C01.filter", 14)
 	checkAccessors(w, c, "C01.accessor", []string{"GetType", "GetID", "GetLink"})
 	c.floor("C01.accessor", 42)
@@ -607,6 +610,39 @@ func checkScalarPairs(w *World, c *Check, t *tables, rule string) {
 		case "duration":
 			callees = deepCallees(f, 3)
 			wx := usesPkg(callees, "xsd-duration")
+			// every value the duration writer hands on to be written comes out of the xsd:duration formatter: a
+			// hand-rolled shortcut for "whole seconds under a minute" is a second formatter that nothing checks (it puts
+			// the sign of a negative duration after the designator: PT-5S)
+			if wx {
+				nv := 0
+				for _, call := range callsIn(f) {
+					cal := call.Common().StaticCallee()
+					if cal == nil || cal == f {
+						continue
+					}
+					if _, isPW := t.pw[cal]; !isPW {
+						continue
+					}
+					for _, a := range call.Common().Args {
+						if !isByteSlice(a.Type()) && !isStringish(a.Type()) {
+							continue
+						}
+						if _, isConst := a.(*ssa.Const); isConst {
+							continue
+						}
+						if pi := paramIndexOf(f, a); pi >= 0 {
+							continue // the property name handed on
+						}
+						nv++
+						vk := fmt.Sprintf("duration:%s:value#%d", funcName(f), nv)
+						if valueFromPkg(a, "xsd-duration", 0, map[ssa.Value]bool{}) {
+							c.ok(rule, vk, w.InstrPos(call), "the text written comes from the xsd:duration formatter")
+						} else {
+							c.bad(rule, vk, w.InstrPos(call), fmt.Sprintf("%s writes a duration text that does not come out of the xsd:duration formatter (%s): a second, unchecked rendering of durations — the reader only understands xsd:duration, so values that take this path can come back changed or not at all", funcName(f), shortVal(a)))
+						}
+					}
+				}
+			}
 			// readers: getters returning time.Duration
 			for g := range t.getter {
 				res := g.Signature.Results()
@@ -1503,4 +1539,232 @@ func checkCarriedState(w *World, c *Check, rule string) {
 		}
 	}
 	c.stat("member_iteration_callbacks", n)
+}
+
+// checkWholeListWritten (C01.W-whole): a property writer that is handed a list-typed value (the language/text list, an
+// item list) writes the list through the list's own encoder. A branch that writes a single entry of it instead — "all
+// languages carry the same text, so the text says it all" — drops the other entries (their tags) for the values that
+// take the branch.
+func checkWholeListWritten(w *World, c *Check, t *tables, rule string) {
+	n := 0
+	for f := range t.pw {
+		var lists []*ssa.Parameter
+		for _, p := range f.Params {
+			if _, isSlice := types.Unalias(p.Type()).Underlying().(*types.Slice); isSlice && namedOf(p.Type()) != nil && namedOf(p.Type()).Obj().Pkg() == w.Types {
+				lists = append(lists, p)
+			}
+		}
+		for _, lp := range lists {
+			// values written by f through another prop writer or the raw value writer
+			k := 0
+			for _, call := range callsIn(f) {
+				cal := call.Common().StaticCallee()
+				if cal == nil || !w.InPkg(cal) || cal == f {
+					continue
+				}
+				if _, isPW := t.pw[cal]; !isPW {
+					continue
+				}
+				for _, a := range call.Common().Args {
+					if !isByteSlice(a.Type()) && !isStringish(a.Type()) {
+						continue
+					}
+					how := partOfList(a, lp, 0, map[ssa.Value]bool{})
+					if how == "" {
+						continue
+					}
+					k++
+					n++
+					key := fmt.Sprintf("%s:%s#%d", funcName(f), lp.Name(), k)
+					if how == "whole" {
+						c.ok(rule, key, w.InstrPos(call), "the list is written through its own encoder")
+					} else {
+						c.bad(rule, key, w.InstrPos(call), fmt.Sprintf("%s writes %s of the list %s instead of the list: for the values that take this path the other entries (and their language tags) are not written at all", funcName(f), how, lp.Name()))
+					}
+				}
+			}
+		}
+	}
+	c.stat(rule+"_list_writes", n)
+}
+
+// partOfList: how the written bytes v derive from the list parameter lp: "whole" (a method of the list other than an
+// element accessor, e.g. its MarshalJSON), a description of the element access ("the first entry"), or "" when v does
+// not derive from lp at all.
+func partOfList(v ssa.Value, lp *ssa.Parameter, d int, seen map[ssa.Value]bool) string {
+	if v == nil || d > 12 || seen[v] {
+		return ""
+	}
+	seen[v] = true
+	v = unwrap(v)
+	// the parameter spilled into a local (a pointer-receiver method was called on it): loads of the local are the list
+	isList := func(y ssa.Value) bool {
+		y = unwrap(y)
+		if y == ssa.Value(lp) {
+			return true
+		}
+		if ld, ok := y.(*ssa.UnOp); ok && ld.Op == token.MUL {
+			if al, ok := ld.X.(*ssa.Alloc); ok {
+				sts := storesTo(al)
+				return len(sts) == 1 && sts[0].Val == ssa.Value(lp)
+			}
+		}
+		return false
+	}
+	if isList(v) {
+		return "whole"
+	}
+	switch x := v.(type) {
+	case *ssa.Extract:
+		return partOfList(x.Tuple, lp, d+1, seen)
+	case *ssa.Phi:
+		res := ""
+		for _, e := range x.Edges {
+			if r := partOfList(e, lp, d+1, seen); r != "" && (res == "" || res == "whole") {
+				res = r
+			}
+		}
+		return res
+	case *ssa.Field:
+		if r := partOfList(x.X, lp, d+1, seen); r != "" {
+			return r
+		}
+	case *ssa.UnOp:
+		if ia, ok := x.X.(*ssa.IndexAddr); ok && isList(ia.X) {
+			return "one entry"
+		}
+		if fa, ok := x.X.(*ssa.FieldAddr); ok {
+			if ia, ok := fa.X.(*ssa.IndexAddr); ok && isList(ia.X) {
+				return "one entry"
+			}
+		}
+		return partOfList(x.X, lp, d+1, seen)
+	case *ssa.Index:
+		if isList(x.X) {
+			return "one entry"
+		}
+	case *ssa.Call:
+		cal := x.Common().StaticCallee()
+		args := allArgs(x)
+		recvIsList := false
+		if len(args) > 0 {
+			recvIsList = isList(args[0])
+			if al, ok := unwrap(args[0]).(*ssa.Alloc); ok { // pointer receiver: &local
+				sts := storesTo(al)
+				recvIsList = recvIsList || (len(sts) == 1 && sts[0].Val == ssa.Value(lp))
+			}
+		}
+		if cal != nil && cal.Signature.Recv() != nil && recvIsList {
+			switch cal.Name() {
+			case "First", "Get", "Last":
+				return "the entry " + cal.Name() + "() yields"
+			}
+			return "whole"
+		}
+		res := ""
+		for _, a := range args {
+			if r := partOfList(a, lp, d+1, seen); r != "" && (res == "" || res == "whole") {
+				res = r
+			}
+		}
+		return res
+	}
+	return ""
+}
+
+// valueFromPkg: v derives (through conversions, locals, phis, appends and extracts) from the result of a call into a
+// package whose path contains frag, on EVERY way it can be produced.
+func valueFromPkg(v ssa.Value, frag string, d int, seen map[ssa.Value]bool) bool {
+	if v == nil || d > 12 {
+		return false
+	}
+	if seen[v] {
+		return true
+	}
+	seen[v] = true
+	switch x := v.(type) {
+	case *ssa.Convert:
+		return valueFromPkg(x.X, frag, d+1, seen)
+	case *ssa.ChangeType:
+		return valueFromPkg(x.X, frag, d+1, seen)
+	case *ssa.Extract:
+		return valueFromPkg(x.Tuple, frag, d+1, seen)
+	case *ssa.Slice:
+		return valueFromPkg(x.X, frag, d+1, seen)
+	case *ssa.Phi:
+		for _, e := range x.Edges {
+			if !valueFromPkg(e, frag, d+1, seen) {
+				return false
+			}
+		}
+		return len(x.Edges) > 0
+	case *ssa.UnOp:
+		if al, ok := x.X.(*ssa.Alloc); ok && x.Op == token.MUL {
+			// what the local was given: direct stores, and what helpers that got its address were handed (JSONWrite(&tb, v...))
+			var fills []ssa.Value
+			for _, st := range storesTo(al) {
+				if k, isC := st.Val.(*ssa.Const); isC && k.Value == nil {
+					continue // var tb []byte
+				}
+				fills = append(fills, st.Val)
+			}
+			if al.Referrers() != nil {
+				for _, r := range *al.Referrers() {
+					call, isCall := r.(*ssa.Call)
+					if !isCall {
+						continue
+					}
+					for _, a := range call.Common().Args {
+						if a == ssa.Value(al) {
+							continue
+						}
+						if elems, okE := variadicElems(a); okE {
+							for _, e := range elems {
+								if _, isC := e.(*ssa.Const); !isC {
+									fills = append(fills, e)
+								}
+							}
+							continue
+						}
+						if _, isC := a.(*ssa.Const); !isC && (isByteSlice(a.Type()) || isStringish(a.Type())) {
+							fills = append(fills, a)
+						}
+					}
+				}
+			}
+			if len(fills) == 0 {
+				return false
+			}
+			for _, fv := range fills {
+				if !valueFromPkg(fv, frag, d+1, seen) {
+					return false
+				}
+			}
+			return true
+		}
+	case *ssa.Call:
+		cal := x.Common().StaticCallee()
+		if cal != nil && cal.Object() != nil && cal.Object().Pkg() != nil && strings.Contains(cal.Object().Pkg().Path(), frag) {
+			return true
+		}
+		if bi, ok := x.Common().Value.(*ssa.Builtin); ok && bi.Name() == "append" {
+			// quotes appended around the formatted text: some operand comes from the package, the others are constants
+			from := false
+			for _, a := range x.Common().Args {
+				if valueFromPkg(a, frag, d+1, seen) {
+					from = true
+				}
+			}
+			return from
+		}
+		// a package helper that wraps the text (adds quotes): look at its text arguments
+		if cal != nil && cal.Pkg != nil && x.Parent() != nil && cal.Pkg == x.Parent().Pkg {
+			for _, a := range x.Common().Args {
+				if (isByteSlice(a.Type()) || isStringish(a.Type())) && valueFromPkg(a, frag, d+1, seen) {
+					return true
+				}
+			}
+		}
+	}
+	return false
 }
